@@ -27,16 +27,21 @@ func ruleC16Cap(cx *Ctx) {
 	// isLastTest: cond is (x + 2 == maxQueueCapacity)
 	isLastTest := func(cond ssa.Value, x ssa.Value) bool {
 		b, ok := cond.(*ssa.BinOp)
-		if !ok || b.Op != token.EQL {
+		if !ok || (b.Op != token.EQL && b.Op != token.NEQ) {
 			return false
 		}
 		return (isAddConst(b.X, x, 2) && isMaxLoad(b.Y)) || (isAddConst(b.Y, x, 2) && isMaxLoad(b.X))
+	}
+	// the test may be spelled with != (then the false edge is the last chunk)
+	isNegated := func(cond ssa.Value) bool {
+		b, ok := cond.(*ssa.BinOp)
+		return ok && b.Op == token.NEQ
 	}
 	// selected(v, x, b): v, as observed in block b, is "maxQueueCapacity on the last-chunk edge, x otherwise"
 	selected := func(v ssa.Value, x ssa.Value, b *ssa.BasicBlock, gs []Guard) bool {
 		for _, g := range gs {
 			if isLastTest(g.Cond, x) {
-				if g.Truth {
+				if g.Truth != isNegated(g.Cond) {
 					return isMaxLoad(v)
 				}
 				return v == x
